@@ -516,6 +516,22 @@ func clientTiming(rep *Report, viol func(string, map[string]interface{})) {
 
 // ---------------- C16 ----------------
 
+// cutConn lets the first [allowed] writes of the peer through and closes the connection at the next one
+type cutConn struct {
+	net.Conn
+	allowed int
+	writes  int
+}
+
+func (c *cutConn) Write(b []byte) (int, error) {
+	c.writes++
+	if c.writes > c.allowed {
+		c.Conn.Close()
+		return 0, io.ErrClosedPipe
+	}
+	return c.Conn.Write(b)
+}
+
 func suiteTLS(args []string) {
 	fs := flag.NewFlagSet("tls", flag.ExitOnError)
 	seed := fs.Int64("seed", 1, "")
@@ -625,6 +641,39 @@ func suiteTLS(args []string) {
 		obs := tryServer("none", tls.VersionTLS13, true)
 		cw.add("tls-server", fmt.Sprintf("tls %s %x none 1", roleName, tls.VersionTLS13), obs)
 		rep.Distribution[roleName+":"+obs]++
+		// peers that hang up in the middle of the handshake (the handshake ends in io.EOF / a reset, not in an alert):
+		// right after connecting, and after their ClientHello (when they would have to send their certificate)
+		for _, cut := range []int{0, 1} {
+			for _, tv := range []uint16{tls.VersionTLS12, tls.VersionTLS13} {
+				for _, ck := range []string{"none", "valid"} {
+					sa0, h0 := atomic.LoadInt32(&sessAuthCalls), atomic.LoadInt32(&handlerCalls)
+					func() {
+						raw, err := net.DialTimeout("tcp", tcp.Addr().String(), time.Second)
+						if err != nil {
+							return
+						}
+						defer raw.Close()
+						if cut == 0 {
+							return
+						}
+						ccfg := &tls.Config{RootCAs: p.pool, ServerName: "localhost", MinVersion: tls.VersionTLS10, MaxVersion: tv}
+						if ck != "none" {
+							ccfg.Certificates = []tls.Certificate{p.client[ck]}
+						}
+						tc := tls.Client(&cutConn{Conn: raw, allowed: cut}, ccfg)
+						tc.SetDeadline(time.Now().Add(2 * time.Second))
+						tc.Handshake()
+					}()
+					time.Sleep(30 * time.Millisecond)
+					rep.Evaluations++
+					rep.Distribution[roleName+":hangup"]++
+					if atomic.LoadInt32(&sessAuthCalls) > sa0 || atomic.LoadInt32(&handlerCalls) > h0 {
+						viol("tls-hangup", map[string]interface{}{"role": roleName, "what": "a callback ran for a peer that hung up before the TLS handshake was completed",
+							"peer": fmt.Sprintf("max version %x, certificate %s, connection closed after %d handshake flight(s) of the peer", tv, ck, cut)})
+					}
+				}
+			}
+		}
 		ctx, cancel := contextWithTimeout(3 * time.Second)
 		srv.Shutdown(ctx)
 		cancel()
